@@ -7,6 +7,9 @@ from ..rulelib import tree_of, slicer_of, user_nodes
 FID = "setsketcher::SetSketchParams::get_jaccard_bounds"
 
 RULES = {
+    "MODEL-PRE": "structural preconditions of the collision model anchored in the property's mechanisms (shared with C04): SetSketcher "
+                 "registers are guarded improvements of item-derived values, the draw loop is only left on the two tabled lower-bound "
+                 "tests, slots are drawn from a per-item reset permutation, the seed is the item hash. The expectation itself is not decided",
     "PANIC": "get_jaccard_bounds has no panic edge other than its documented precondition: an assertion whose condition depends on the "
              "argument and literals only (jac <= 1). Any other edge — in particular an assertion comparing two computed floats — is a "
              "violation",
@@ -33,8 +36,11 @@ def run(ctx, facts):
     for k, v in RULES.items():
         ctx.rule(k, v)
     ctx.extra["explanation"] = (
-        "Only the clause 'the function returns for every collision fraction in [0,1] without aborting' is decided: the MIR panic-edge "
-        "inventory of get_jaccard_bounds (and of anything it calls in the crate) must consist of argument-precondition assertions only.")
+        "Decided: (1) the clause 'the bounds function returns for every collision fraction in [0,1] without aborting' — the MIR "
+        "panic-edge inventory of get_jaccard_bounds (including std callees with documented panics such as f64::clamp) must consist "
+        "of argument-precondition assertions only; (2) structural preconditions of the collision model: the SetSketch register "
+        "update, early exits, per-item permutation reset and seeding (a register that depends on streaming order cannot follow "
+        "the model). The expectation and the bracketing of J are not decided.")
     ctx.not_decided[:] = ["the collision model", "bracketing of the true Jaccard index", "low <= high as a numeric fact"]
     fn = facts.fn(FID)
     pre = precondition_ifs(fn)
@@ -66,6 +72,15 @@ def run(ctx, facts):
             ctx.violation("PANIC", FID, "callee %s: %s" % (c, e["detail"][:50]), e["where"], "the in-crate callee %s has a panic edge `%s`" % (c, e["detail"][:80]))
     ctx.ok("PANIC", FID, "%d panic edge(s) enumerated, %d precondition assertion(s) recognised" % (n, len(pre)), hirq.loc(fn))
     ctx.floor("C07 panic edges of get_jaccard_bounds", n, 1)
+    # structural preconditions of the collision model (C04's SetSketch rules)
+    from . import C04, C13
+    from ..rulelib import check_seeds
+    ctx.rule("GUARD", C04.RULES["GUARD"]); ctx.rule("EXIT", C04.RULES["EXIT"]); ctx.rule("SEED", C04.RULES["SEED"]); ctx.rule("RESETBEFORE", C04.RULES["RESETBEFORE"])
+    C04._setsketch(ctx, facts)
+    C04._exit_setsketch(ctx, facts)
+    C13.require_verified_reset(ctx, facts, [C13.FY], "RESETBEFORE")
+    C04._resetbefore(ctx, facts, C04.SS + "sketch")
+    check_seeds(ctx, facts, "SEED", {C04.SS + "sketch": C04.SEED_TABLE[C04.SS + "sketch"]})
     # information: lower bound capped by the upper bound
     body = fn["hir"]
     tail = nf.nf(body["expr"]) if "expr" in body else ""
